@@ -846,6 +846,7 @@ func (s *Server) handlePartitionNotification(m *nats.Msg) {
 
 	// Wake the follower up.
 	partition.Notify()
+	verifLoopGate("follower.notified", s.config.Clustering.ServerID, nil)
 }
 
 // getServerInfoInbox returns the NATS subject used for handling server
